@@ -28,6 +28,8 @@ type TemplateDef struct {
 	Side         bool                     `json:"side,omitempty"`     // second container
 	Cpu          string                   `json:"cpu,omitempty"`      // request of container main
 	Mem          string                   `json:"mem,omitempty"`      // memory request of container main, spelled as given ("128Mi" / "134217728")
+	NoLabels     bool                     `json:"noLabels,omitempty"` // the template carries no labels at all
+	Checksum     string                   `json:"checksum,omitempty"` // pod annotation checksum/config: a template that differs from its twin in metadata only ("X^")
 	Labels       map[string]string        `json:"labels,omitempty"`
 	Namespace    string                   `json:"namespace,omitempty"` // spec.template.metadata.namespace (normally empty)
 }
@@ -114,8 +116,15 @@ func (t *TemplateDef) Spec() corev1.PodTemplateSpec {
 	for k, v := range t.Labels {
 		lbls[k] = v
 	}
+	if t.NoLabels {
+		lbls = nil
+	}
+	var anns map[string]string
+	if t.Checksum != "" {
+		anns = map[string]string{checksumAnnotation: t.Checksum}
+	}
 	return corev1.PodTemplateSpec{
-		ObjectMeta: metav1.ObjectMeta{Labels: lbls, Namespace: t.Namespace},
+		ObjectMeta: metav1.ObjectMeta{Labels: lbls, Annotations: anns, Namespace: t.Namespace},
 		Spec: corev1.PodSpec{
 			Containers:   cs,
 			NodeSelector: t.NodeSelector,
